@@ -988,7 +988,7 @@ class Gen:
         sid = self._sid_pool(trk)
         st = trk.get(sid)
         k = rng.randrange(22)
-        if st is not None and k in (1, 2, 12, 20) and ((ep, sid) in self.cl_left or (ep, sid) in self.nohead
+        if st is not None and k in (0, 1, 2, 12, 20) and ((ep, sid) in self.cl_left or (ep, sid) in self.nohead
                                                         or self._no_body(trk, st)):
             return      # body-carrying misuse would make the *application* break HTTP semantics (C16's business)
         # FSM-refused misuse poisons the stream/connection FSM (known finding
@@ -1005,8 +1005,11 @@ class Gen:
                 kw['pd'] = sid
             self.call(ep, 'send_headers', sid=sid, headers=hs, es=rng.random() < 0.5, **kw)
         elif k == 1:
-            early_body = (not e.client and st is not None and not st.mine and st.state in ('open', 'hcR') and
-                          st.sent in (NONE, INFO) and 'F-DATA-BEFORE-HEADERS' not in self.avoid)
+            early = (not e.client and st is not None and not st.mine and st.state in ('open', 'hcR') and
+                     st.sent in (NONE, INFO))
+            if early and 'F-DATA-BEFORE-HEADERS' in self.avoid:
+                return      # the library lets a server send a body before its headers (open finding): steered around
+            early_body = early
             if not fsm_ok and not early_body and not (st is not None and st.state in ('open', 'hcR') and st.sent == FINAL):
                 if st is not None or not (sid > (trk.hi_mine if trk.is_mine(sid) else trk.hi_peer)):
                     return
@@ -1015,8 +1018,11 @@ class Gen:
             pad = rng.choice([None, None, 0, 255, 256, -1])
             self.call(ep, 'send_data', sid=sid, data=b'x' * size, es=rng.random() < 0.3, pad=pad)
         elif k == 2:
-            early_body = (not e.client and st is not None and not st.mine and st.state in ('open', 'hcR') and
-                          st.sent in (NONE, INFO) and 'F-DATA-BEFORE-HEADERS' not in self.avoid)
+            early = (not e.client and st is not None and not st.mine and st.state in ('open', 'hcR') and
+                     st.sent in (NONE, INFO))
+            if early and 'F-DATA-BEFORE-HEADERS' in self.avoid:
+                return      # the library lets a server send a body before its headers (open finding): steered around
+            early_body = early
             if not fsm_ok and not early_body and not (st is not None and st.state in ('open', 'hcR') and st.sent == FINAL):
                 return
             self.call(ep, 'end_stream', sid=sid)
@@ -1044,6 +1050,8 @@ class Gen:
             if self.no_winc:
                 return
             inc = rng.choice([0, 1, -1, 2 ** 31 - 1, 2 ** 31, MAXID - trk.conn_recv + 1, 65535])
+            if not self.P.get('big_windows', True) and 2 ** 20 < inc <= MAXID:
+                inc = 2 ** 31           # (invalid on purpose; valid increments stay <= 2^20 in this profile)
             tsid = rng.choice([None, sid])
             if tsid is not None and not fsm_ok and not (st is not None and st.state != 'closed'):
                 if st is not None:
